@@ -53,6 +53,15 @@ CLAIMS["C12"] = dict(
     note="numpy argsort tie order proved irrelevant (nested_loop_argsort); cases where float and exact ordering of |outcome-baseline| differ are counted ambiguous.",
     design="8.C12")
 
+CLAIMS["C19"] = dict(
+    technique="Lean 4 structural induction over a model of Python's expression AST (Atomica.Expr) + translator-generated whitelist table + correspondence with parse_function / evaluate_plot_string (modes A, F)",
+    text="Proof: accepts_safe/accepts_iff_safe (accepted => every sub-term, at any depth, is a numeric constant, a name, an arithmetic/comparison node or a call of a whitelisted bare name), "
+         "whitelist_safe over the whitelist regenerated from function_parser.py on every run, division rewriting, evaluation as rational arithmetic with sdiv (numerator 0 => 0) on scalars and arrays, "
+         "exact dependency sets. parse_function is compared with the model on every ast.expr node class nested up to depth 3 (exhaustive over node types), generated arithmetic expressions and every "
+         "function string of the repository's frameworks; side effects are watched in a scratch directory.",
+    note="CPython's evaluation of whitelisted nodes and transcendental functions are trusted (opaque in the model); comparison tolerance from a running IEEE error bound.",
+    design="8.C19")
+
 NA_DEFAULT = "not yet claimed: model, theorems and correspondence under construction (see DESIGN.md section 8)"
 NA = {}
 
